@@ -788,6 +788,8 @@ def cpl(c, F, G = None, h = None, dims = None, A = None, b = None,
                 # the last saved state and require a standard line search. 
 
                 phi, gap = phi0, gap0
+                pcost, dcost, relgap = pcost0, dcost0, relgap0
+                pres, dres = pres_0, dres_0
                 mu = gap / ( mnl + dims['l'] + len(dims['q']) + 
                     sum(dims['s']) )
                 blas.copy(W0['dnl'], W['dnl'])
@@ -1188,6 +1190,8 @@ def cpl(c, F, G = None, h = None, dims = None, A = None, b = None,
                         else:
                             # Save state.
                             phi0, dphi0, gap0 = phi, dphi, gap
+                            pcost0, dcost0, relgap0 = pcost, dcost, relgap
+                            pres_0, dres_0 = pres, dres
                             step0 = step
                             blas.copy(W['dnl'], W0['dnl'])
                             blas.copy(W['dnli'], W0['dnli'])
